@@ -3,6 +3,7 @@ ARENA = dict(harness=['h_arena.cpp'], repo_units=['asmjit/support/arena.cpp'], e
 UNITS = [
     Unit('arena', **ARENA),
     Unit('nodes', harness=['h_nodes.cpp'], repo_units=[]),
+    Unit('vec', harness=['h_vec.cpp'], repo_units=['asmjit/support/arenavector.cpp', 'asmjit/support/arenabitset.cpp']),
 ]
 # loops of the arena functions (block chain walks): the chains of the single-block harnesses are at most 2 long
 def arena_loops(n):
@@ -39,17 +40,38 @@ HARNESSES = [
     Harness('nodes', 'h_tree_insert_d3', unwind=33, unwindset=tree_loops(6), tiers=('thorough',), bounds='any valid red-black tree of 0..5 nodes (height <= 3); insert of any new key, then lookup of any key', mem_gb=8, timeout=3000),
     Harness('nodes', 'h_tree_remove_d3', unwind=33, unwindset=tree_loops(6), tiers=('thorough',), bounds='any valid red-black tree of 1..5 nodes (height <= 3); remove of any node', mem_gb=8, timeout=3000),
 ] + [
-    Harness('nodes', 'h_hash_mod_%d' % k, unwind=4, bounds='all 2^32 hash codes x table entries %d..%d' % (8 * k, min(8 * k + 7, 128)), mem_gb=3, timeout=900,
-            tiers=('quick', 'thorough') if k == 0 else ('thorough',)) for k in range(17)
+    Harness('nodes', 'h_hash_mod_%d' % k, unwind=4, bounds='table entries %d..%d: all hash codes below 2^16 through the real _calc_mod + exactness condition of reciprocal division for 32-bit codes on the constants' % (8 * k, min(8 * k + 7, 128)), mem_gb=3, timeout=900,
+            tiers=('quick', 'thorough') if k == 1 else ('thorough',)) for k in range(17)
 ] + [
 ] + [
-    Harness('nodes', 'h_hash_%s_%s' % (tab, op), unwind=13, unwindset=hash_loops(nb), mem_gb=5, timeout=900,
+    # measured: *_insert/remove/rehash on the embedded table 2-30 s; p2/p11 remove 3-24 s; p11_insert 17 s; p2_rehash 270 s; the 2-node
+    # variants p2_insert_n2 255 s, p2_rehash_n2 60 s. No verdict in 900 s (dropped, see OUTSIDE): p2_insert and p11_rehash with 4 nodes, p11_rehash with 2.
+    Harness('nodes', 'h_hash_%s_%s' % (tab, op), unwind=13, unwindset=hash_loops(nb), mem_gb=5, timeout=1800, tiers=tiers,
             bounds=B_HASH % pre + '; ' + what)
     for tab, nb, pre in (('embedded', 1, 'embedded single bucket with 0..1'), ('p2', 2, '2 buckets with 0..4'), ('p11', 11, '11 buckets with 0..4'))
     for op, what in (('insert', 'insert of a 5th node (rehash to 29 buckets when the grow threshold is passed)'), ('remove', 'remove of any of the 5 nodes (member or not)'),
                      ('rehash', 'explicit rehash to the next table size (2 / 11 / 29 buckets)'))
+    for tiers in [('thorough',) if (tab, op) == ('p2', 'rehash') else ('quick', 'thorough')]
+    if (tab, op) not in (('p2', 'insert'), ('p11', 'rehash'))
+] + [
+    Harness('nodes', 'h_hash_%s_n2' % nm, unwind=13, unwindset=hash_loops(nb), mem_gb=5, timeout=1800, tiers=('thorough',), bounds=B_HASH % pre + '; ' + what)
+    for nm, nb, pre, what in (('p2_insert', 2, '2 buckets with 0..2', 'insert (rehash to 29 buckets)'), ('p2_rehash', 2, '2 buckets with 0..2', 'rehash to 11 buckets'))
+] + [
+    Harness('vec', 'h_vec_u32', unwind=10, bounds='ArenaVector<uint32_t>: size/index pairs (0,0) (0,2) (1,0) (1,1) (3,0) (3,1) (3,3) (4,2) (4,4), spare capacity 0 or 2, symbolic elements; one of append/prepend/insert/remove_at/pop/truncate/clear/resize_fit/resize_grow/reserve/swap/release', mem_gb=4, timeout=900),
+    Harness('vec', 'h_vec_tri', unwind=10, bounds='ArenaVector<12-byte struct>: same as h_vec_u32', mem_gb=4, timeout=900),
+    Harness('vec', 'h_vec_huge_u32', unwind=4, bounds='reserve_fit/reserve_grow/reserve_additional with any 64-bit item count > 2, arena failing or granting', mem_gb=4, timeout=900),
+    Harness('vec', 'h_vec_huge_tri', unwind=4, bounds='same for the 12-byte item', mem_gb=4, timeout=900),
+    Harness('vec', 'h_bitset_bits', unwind=130, bounds='any bit set of size 0..128 (two words, symbolic content); bit_at/set_bit/add_bit/clear_bit/xor_bit at any index, append within capacity, truncate, clear', mem_gb=4, timeout=900),
+    Harness('vec', 'h_bitset_ranges', unwind=130, bounds='any bit set of size 0..128; clear_all/fill_all/clear_bits/fill_bits over any range, iteration over set bits', mem_gb=4, timeout=900),
+    Harness('vec', 'h_bitset_combine', unwind=130, bounds='two bit sets of sizes 0..128; and_/or_/and_not/equals/copy_from', mem_gb=4, timeout=900),
+    Harness('vec', 'h_bitset_resize', unwind=200, bounds='any bit set of size 0..128 with capacity 64 or 128; resize to 0..192 with either value, or growing append', mem_gb=4, timeout=900),
+    Harness('vec', 'h_bitset_resize_kf_D18B', unwind=200, known='D18B', bounds='resize growing from a size that is not a multiple of 64', mem_gb=4, timeout=900),
+    Harness('vec', 'h_bitvec_ops', unwind=195, bounds='3 symbolic words; bit_vector_fill/clear over any range, index_of from any start, BitVectorIterator from any start', mem_gb=4, timeout=900),
+    Harness('vec', 'h_bitword_iter', unwind=130, bounds='all 64-bit / 32-bit words; BitVectorOpIterator<AndNot> over 2x2 symbolic words', mem_gb=4, timeout=900),
 ]
 EXPLANATION = 'bounded symbolic execution (CBMC) of the real container code compiled from /repo; one operation from an arbitrary valid pre-state built in the harness, compared with an abstract model (plain arrays)'
-OUTSIDE = []
+OUTSIDE = ['ArenaHash: insert into / rehash of tables with 2 and 11 buckets holding more than 2 nodes when the target has 29 buckets (no verdict from the SAT back end within 15 min); hash codes wider than 8 bits in the table harnesses (16 bits in h_hash_mod)',
+           'ArenaTree: trees of more than 5 nodes (quick: more than 3)']
 ASSUMPTIONS = ['malloc never fails (allocation failure is C15)',
+               'vector / bit set harnesses: Arena::_alloc_reusable and _release_dynamic are harness stubs (one typed 512-byte pool, allocated size reported as the real arena does)',
                'hash harnesses: Arena::_alloc_reusable_zeroed is a harness stub returning a zeroed typed pool (the arena itself is checked by the h_arena_* harnesses)']
